@@ -1,0 +1,97 @@
+//go:build verif
+
+// Contracts for package project, read by the VC generator in /verif (govc). Comments only.
+// The projection is an arbitrary pure, total, deterministic function (`purefuncs`): it is applied
+// as an uninterpreted function, so the contracts hold for every projection.
+
+package project
+
+//@ func Point(p, proj)
+//@   purefuncs
+//@   floats bits
+//@   pure
+//@   requires proj != nil
+//@   ensures same(result, proj(p))
+
+//@ func MultiPoint(mp, proj)
+//@   purefuncs
+//@   floats bits
+//@   requires proj != nil
+//@   modifies mp[*]
+//@   ensures same(result, mp)
+//@   ensures forall k :: 0 <= k && k < len(mp) ==> same(mp[k], proj(old(mp[k])))
+//@   loop 1: invariant -1 <= rangeindex && rangeindex < len(mp)
+//@   loop 1: invariant forall k :: 0 <= k && k <= rangeindex ==> same(mp[k], proj(old(mp[k])))
+//@   loop 1: invariant forall k :: rangeindex < k && k < len(mp) ==> same(mp[k], old(mp[k]))
+
+//@ func LineString(ls, proj)
+//@   purefuncs
+//@   floats bits
+//@   requires proj != nil
+//@   modifies ls[*]
+//@   ensures same(result, ls)
+//@   ensures forall k :: 0 <= k && k < len(ls) ==> same(ls[k], proj(old(ls[k])))
+
+//@ func Ring(r, proj)
+//@   purefuncs
+//@   floats bits
+//@   requires proj != nil
+//@   modifies r[*]
+//@   ensures same(result, r)
+//@   ensures forall k :: 0 <= k && k < len(r) ==> same(r[k], proj(old(r[k])))
+
+// the projected bound is the box of the two projected corners: Extend of {min,min} by max
+//@ func Bound(bound, proj)
+//@   purefuncs
+//@   pure
+//@   requires proj != nil
+//@   ensures nonanP(proj(bound.Min)) && nonanP(proj(bound.Max)) ==> isExtend(result, mk(orb.Bound, proj(bound.Min), proj(bound.Min)), proj(bound.Max))
+
+// Nested kinds: the element headers are rewritten with themselves (same backing arrays, same order,
+// same lengths); the per-vertex statement for them needs the rings not to share memory and a
+// two-level frame, which is not stated here.
+//@ func MultiLineString(mls, proj)
+//@   purefuncs
+//@   floats bits
+//@   requires proj != nil
+//@   ensures same(result, mls)
+//@   ensures forall i :: 0 <= i && i < len(mls) ==> same(mls[i], old(mls[i]))
+//@   loop 1: invariant -1 <= rangeindex && rangeindex < len(mls) && (forall i :: 0 <= i && i < len(mls) ==> same(mls[i], old(mls[i])))
+
+//@ func Polygon(p, proj)
+//@   purefuncs
+//@   floats bits
+//@   requires proj != nil
+//@   ensures same(result, p)
+//@   ensures forall i :: 0 <= i && i < len(p) ==> same(p[i], old(p[i]))
+//@   loop 1: invariant -1 <= rangeindex && rangeindex < len(p) && (forall i :: 0 <= i && i < len(p) ==> same(p[i], old(p[i])))
+
+//@ func MultiPolygon(mp, proj)
+//@   purefuncs
+//@   floats bits
+//@   requires proj != nil
+//@   ensures same(result, mp)
+//@   ensures forall i :: 0 <= i && i < len(mp) ==> same(mp[i], old(mp[i]))
+//@   loop 1: invariant -1 <= rangeindex && rangeindex < len(mp) && (forall i :: 0 <= i && i < len(mp) ==> same(mp[i], old(mp[i])))
+
+//@ func Collection(c, proj)
+//@   purefuncs
+//@   floats bits
+//@   requires proj != nil
+//@   ensures same(result, c)
+//@   ensures forall i :: 0 <= i && i < len(c) ==> typeof(c[i]) == typeof(old(c[i]))
+//@   loop 1: invariant -1 <= rangeindex && rangeindex < len(c) && (forall i :: 0 <= i && i < len(c) ==> typeof(c[i]) == typeof(old(c[i])))
+
+// generic entry point: total over the nine kinds and nil, kind preserved, the typed function applied
+//@ func Geometry(g, proj)
+//@   purefuncs
+//@   requires proj != nil
+//@   ensures typeof(result) == typeof(g)
+//@   ensures istype(g, orb.Point) ==> same(as(result, orb.Point), proj(as(g, orb.Point)))
+//@   ensures istype(g, orb.MultiPoint) ==> same(as(result, orb.MultiPoint), as(g, orb.MultiPoint)) && (forall k :: 0 <= k && k < len(as(g, orb.MultiPoint)) ==> same(as(g, orb.MultiPoint)[k], proj(old(as(g, orb.MultiPoint)[k]))))
+//@   ensures istype(g, orb.LineString) ==> same(as(result, orb.LineString), as(g, orb.LineString)) && (forall k :: 0 <= k && k < len(as(g, orb.LineString)) ==> same(as(g, orb.LineString)[k], proj(old(as(g, orb.LineString)[k]))))
+//@   ensures istype(g, orb.Ring) ==> same(as(result, orb.Ring), as(g, orb.Ring)) && (forall k :: 0 <= k && k < len(as(g, orb.Ring)) ==> same(as(g, orb.Ring)[k], proj(old(as(g, orb.Ring)[k]))))
+//@   ensures istype(g, orb.Polygon) ==> same(as(result, orb.Polygon), as(g, orb.Polygon))
+//@   ensures istype(g, orb.MultiLineString) ==> same(as(result, orb.MultiLineString), as(g, orb.MultiLineString))
+//@   ensures istype(g, orb.MultiPolygon) ==> same(as(result, orb.MultiPolygon), as(g, orb.MultiPolygon))
+//@   ensures istype(g, orb.Collection) ==> same(as(result, orb.Collection), as(g, orb.Collection))
